@@ -125,7 +125,7 @@ def _regen(repo=None):
     sd = src_dir(repo)
     tools = os.path.join(LIBREPO, "aldor", "aldor", "tools", "unix")
     if os.path.realpath(sd) != os.path.realpath(src_dir(LIBREPO)):
-        for n in ("axl_y.c", "comsgdb.c", "comsgdb.h"):	# untracked build artefacts
+        for n in ("axl_y.c", "comsgdb.c", "comsgdb.h", "opsys_port.h"):	# untracked build artefacts
             if not os.path.exists(os.path.join(sd, n)) and os.path.exists(os.path.join(src_dir(LIBREPO), n)):
                 shutil.copy2(os.path.join(src_dir(LIBREPO), n), os.path.join(sd, n))
 
